@@ -5,7 +5,11 @@
 (* 1. Canonical lookup lists (the projection harness/internal/dsl/canon.go *)
 (*    makes of a gtab.LookupList; JSON objects arrive as records, arrays   *)
 (*    as tuples) and what it means for one to conform to a shape of        *)
-(*    Dsl.tla.                                                             *)
+(*    Dsl.tla.  The projection keeps every sequence whose order matters in *)
+(*    order -- the ligatures of a first glyph, the rules of a rule set,    *)
+(*    the subtables of a lookup, the lookups of a list (first match wins)  *)
+(*    -- so the equality of two projections demanded by DslTrace.tla is    *)
+(*    order-sensitive exactly there; coverage and class maps are sorted.   *)
 (* 2. The meaning of the notation, written from the documented syntax      *)
 (*    (the examples of the package: glyph names, quoted strings looked up  *)
 (*    through the character map, glyph numbers, ranges a-b, [sets],        *)
@@ -39,7 +43,8 @@ SubConforms(s, f, st) ==
   /\ CASE f \in {"run", "map"} -> Len(st.map) = s.a
        [] f = "mult"   -> Len(st.map) = s.a /\ AllOf(st.map, LAMBDA m : Len(m[2]) = s.b)
        [] f = "alt"    -> Len(st.map) = s.a /\ AllOf(st.map, LAMBDA m : Len(m[2]) = s.b)
-       [] f = "lig"    -> Len(st.map) = s.a /\ AllOf(st.map, LAMBDA m : AllOf(m[2], LAMBDA l : Len(l[1]) = s.c - 1))
+       [] f = "lig"    -> Len(st.map) = s.a
+                          /\ AllOf(st.map, LAMBDA m : (s.c > 1 => Len(m[2]) = s.b) /\ AllOf(m[2], LAMBDA l : Len(l[1]) = s.c - 1))
        [] f = "ligrun" -> Len(st.map) = s.a /\ AllOf(st.map, LAMBDA m : Len(m[2]) = 1 /\ m[2][1][1] = <<>>)
        [] f = "ctx1"   -> SumLen(st.map) = s.a
                           /\ AllOf(st.map, LAMBDA m : AllOf(m[2], LAMBDA r : Len(r.in) = s.b - 1 /\ Len(r.act) = s.c))
